@@ -47,7 +47,24 @@ pub fn canon(level: u8, x: &str) -> String {
                 None => crate::wire::l1(x),
             }
         }
+        2 => {
+            // value | absent-class error (Binding / Attribute) | other error, call log verbatim
+            // (failures stored inside a list / map value: any kind)
+            x.split(' ')
+                .enumerate()
+                .map(|(i, t)| if i == 0 { crate::wire::l2_absent(t) } else if t.starts_with("e:") { "e:*".to_string() } else { t.to_string() })
+                .collect::<Vec<_>>()
+                .join(" ")
+        }
         7 => {
+            // L1 on the result token; failures stored inside a list / map value: any kind; call log verbatim
+            x.split(' ')
+                .enumerate()
+                .map(|(i, t)| if i == 0 { crate::wire::l1(t) } else if t.starts_with("e:") { "e:*".to_string() } else { t.to_string() })
+                .collect::<Vec<_>>()
+                .join(" ")
+        }
+        8 => {
             // outcome class only: a value ("ok") or a failure ("E")
             let head = x.split(' ').next().unwrap_or("");
             if head == "ok" || head == "E" {
